@@ -725,6 +725,9 @@ func genUpdate(r *rng, d bson.D) (bson.D, bsonkit.List) {
 		}
 		u = append(u, bson.E{Key: op, Value: arg})
 	}
+	if r.chance(1, 7) {
+		u = injectRelatedPath(r, d, u)
+	}
 	var filters bsonkit.List
 	if usesID && r.chance(1, 2) || r.chance(1, 50) {
 		n := 1 + r.intn(2)
@@ -734,6 +737,124 @@ func genUpdate(r *rng, d bson.D) (bson.D, bsonkit.List) {
 		}
 	}
 	return u, filters
+}
+
+// relatedPath: a path in conflict (or nearly in conflict) with p: equal, a
+// prefix, an extension, a positional operator where p has a fixed segment or
+// the other way round, a different array filter, an aliasing index, a sibling.
+func relatedPath(r *rng, p string) string {
+	segs := strings.Split(p, ".")
+	switch r.intn(10) {
+	case 0:
+		return p
+	case 1:
+		if len(segs) > 1 {
+			return strings.Join(segs[:1+r.intn(len(segs)-1)], ".")
+		}
+		return p
+	case 2:
+		return p + "." + pick(r, []string{"a", "b", "x", "0", "1", "$[]"})
+	case 3, 4:
+		// swap fixed <-> positional at one position
+		i := r.intn(len(segs))
+		c := append([]string{}, segs...)
+		if strings.HasPrefix(c[i], "$") {
+			c[i] = pick(r, []string{"0", "1", "b"})
+		} else if i > 0 {
+			c[i] = pick(r, []string{"$[]", "$[]", "$[x]"})
+		}
+		if r.chance(1, 2) {
+			c = append(c, pick(r, poolKeys))
+		} else if len(c) > i+1 && r.chance(1, 2) {
+			c[len(c)-1] = pick(r, []string{"y", "z"})
+		}
+		return strings.Join(c, ".")
+	case 5:
+		// different positional operator at the same position
+		c := append([]string{}, segs...)
+		for i := range c {
+			if strings.HasPrefix(c[i], "$") {
+				c[i] = pick(r, []string{"$[]", "$[x]", "$[y]"})
+			}
+		}
+		return strings.Join(c, ".")
+	case 6:
+		// aliasing index segment
+		c := append([]string{}, segs...)
+		for i := range c {
+			if n, err := strconv.Atoi(c[i]); err == nil {
+				c[i] = pick(r, []string{"0" + strconv.Itoa(n), "+" + strconv.Itoa(n), strconv.Itoa(n + 1)})
+			}
+		}
+		return strings.Join(c, ".")
+	case 7:
+		// sibling: same parent, other last segment
+		c := append([]string{}, segs...)
+		c[len(c)-1] = pick(r, []string{"a", "b", "y", "0", "2"})
+		return strings.Join(c, ".")
+	default:
+		if len(segs) > 1 {
+			return strings.Join(segs[:len(segs)-1], ".")
+		}
+		return p + ".k"
+	}
+}
+
+// injectRelatedPath adds one more operator invocation whose path is related
+// to a path the update already names: in the same operator document (also as
+// a duplicate key), in another operator (often $setOnInsert, which is inert
+// without upsert, or a no-op), or as the TARGET of a $rename.
+func injectRelatedPath(r *rng, d bson.D, u bson.D) bson.D {
+	var named []string
+	for _, e := range u {
+		if pairs, ok := e.Value.(bson.D); ok {
+			for _, p := range pairs {
+				named = append(named, p.Key)
+				if t, ok := p.Value.(string); ok && e.Key == "$rename" {
+					named = append(named, t)
+				}
+			}
+		}
+	}
+	if len(named) == 0 {
+		return u
+	}
+	q := relatedPath(r, pick(r, named))
+	cur := bsonkit.Get(&d, strings.ReplaceAll(strings.ReplaceAll(q, "$[]", "0"), "$[x]", "0"))
+	switch r.intn(5) {
+	case 0:
+		// inside an existing operator document
+		i := r.intn(len(u))
+		if pairs, ok := u[i].Value.(bson.D); ok {
+			u[i].Value = append(append(bson.D{}, pairs...), bson.E{Key: q, Value: genOpArg(r, u[i].Key, cur, d)})
+			return u
+		}
+		fallthrough
+	case 1:
+		// as the target of a $rename of some other (possibly missing) field
+		src := pick(r, []string{"k", "n", "c", "x", "b"})
+		return append(u, bson.E{Key: "$rename", Value: bson.D{{Key: src, Value: q}}})
+	case 2:
+		return append(u, bson.E{Key: "$setOnInsert", Value: bson.D{{Key: q, Value: genSmall(r)}}})
+	case 3:
+		// a likely no-op: $max with a very small value, $pull of an absent value, $unset of a missing field
+		op := pick(r, []string{"$max", "$pull", "$unset", "$min"})
+		var arg interface{} = primitive.MinKey{}
+		switch op {
+		case "$max":
+			arg = nil
+		case "$min":
+			arg = primitive.Regex{Pattern: "zz"}
+		case "$pull":
+			arg = "no-such-element"
+		default:
+			arg = ""
+		}
+		return append(bson.D{{Key: op, Value: bson.D{{Key: q, Value: arg}}}}, u...)
+	default:
+		op := pick(r, updateOperators)
+		return append(u, bson.E{Key: op, Value: bson.D{{Key: q, Value: genOpArg(r, op, cur, d)}}})
+	}
 }
 
 // needsMatcher: the syntactic class that can reach mongokit.Match
@@ -958,6 +1079,9 @@ func init() {
 			}
 			if positional {
 				labels = append(labels, "positional:"+outcome)
+			}
+			if _, _, c := staticConflict(*ac.update); c {
+				labels = append(labels, "static-conflict:"+outcome)
 			}
 			if ac.upsert {
 				labels = append(labels, "upsert")
